@@ -1,5 +1,6 @@
 import ChipFiring.Theory.RankTheory
 import ChipFiring.Theory.GoodOf
+import ChipFiring.Theory.RiemannRoch
 /-
   C03 — Rank equals the Baker–Norine rank in both calculation modes.
 
@@ -96,9 +97,8 @@ theorem rank_optimized_exact_low (G : Graph n) (hg : Good G) (fuel : Nat) (Dv : 
 
 /-- optimized mode in the band where the search is moved to K − D: the value is
     r(K − D) + deg D + 1 − g, with r(K − D) computed exactly (−1 when K − D is unwinnable).
-    That this equals r(D) is the Riemann–Roch theorem for graphs, which is NOT proved here
-    (`…_partial`): the clause is decided on the explored inputs by comparison with the plain
-    mode, whose exactness is `rank_plain_exact`. -/
+    That this equals r(D) is the Riemann–Roch theorem for graphs (`riemann_roch` below); the full
+    statement for the optimized mode is `rank_optimized_exact`, of which this is a lemma. -/
 theorem rank_optimized_band_partial (G : Graph n) (hg : Good G) (fuel : Nat) (Dv : Divisor n) (r : Int)
     (out : EwdOut n) (red : Reduced n)
     (he : ewd G (fun _ => []) fuel Dv false = some (.ok out)) (hver : out.verdict = true) (hr : out.red = some red)
@@ -149,5 +149,94 @@ example : ∃ G : Graph 3, Graph.new 3 false [(0, 1, 2), (1, 2, 2), (0, 2, 2)] =
 theorem rank_plain_exact_connected (G : Graph n) (hG : G.WF) (hc : G.Connected) (hn : 0 < n) (fuel : Nat)
     (Dv : Divisor n) (r : Int) (h : rank G fuel Dv false = some (.ok r)) : IsRank G Dv.deg r :=
   rank_plain_exact G (good_of_connected G hG hc hn) fuel Dv r h
+
+/-- Riemann–Roch for graphs (Baker–Norine): for every divisor D on a connected multigraph,
+    r(D) − r(K − D) = deg D + 1 − g -/
+theorem riemann_roch (G : Graph n) (hG : G.WF) (hc : G.Connected) (hn : 0 < n) (D : Fin n → Int) (r r' : Int)
+    (h : IsRank G D r) (h' : IsRank G (fun v => canonical G v - D v) r') :
+    r - r' = deg D + 1 - G.genus := CF.riemann_roch G hG hc hn D r r' h h'
+
+/-- every divisor has a rank (so the relation `IsRank` is a total function) -/
+theorem rank_exists (G : Graph n) (hG : G.WF) (hn : 0 < n) (D : Fin n → Int) : ∃ r, IsRank G D r :=
+  exists_isRank G hG hn D
+
+/-- r(D) = deg D − g whenever deg D > 2g − 2 -/
+theorem rank_above_canonical_degree (G : Graph n) (hG : G.WF) (hc : G.Connected) (hn : 0 < n) (D : Fin n → Int)
+    (h : 2 * G.genus - 2 < deg D) : IsRank G D (deg D - G.genus) := rank_high_degree G hG hc hn D h
+
+theorem canonicalOf_eq (G : Graph n) (hG : G.WF) : canonicalOf G = canonical G := by
+  funext v; simp only [canonicalOf, canonical, hG.val_eq v]; push_cast; rfl
+
+/-- optimized mode, every branch: whenever `rank … true` returns on a divisor whose cached total is
+    its degree (established by the constructor and kept by every move: C05), the value is the
+    Baker–Norine rank.  The `deg > 2g − 2` shortcut and the switch to K − D are justified by
+    Riemann–Roch. -/
+theorem rank_optimized_exact (G : Graph n) (hg : Good G) (fuel : Nat) (Dv : Divisor n) (r : Int)
+    (htot : Dv.total = deg Dv.deg)
+    (h : rank G fuel Dv true = some (.ok r)) : IsRank G Dv.deg r := by
+  have hG := hg.wf
+  cases he : ewd G (fun _ => []) fuel Dv false with
+  | none => simp [rank, he] at h
+  | some x =>
+    cases x with
+    | error e => simp [rank, he] at h
+    | ok out =>
+      cases hver : out.verdict with
+      | false =>
+        apply rank_plain_exact G hg fuel Dv r
+        unfold rank at h ⊢
+        simpa [he, hver] using h
+      | true =>
+        cases hr : out.red with
+        | none => simp [rank, he, hver, hr] at h
+        | some red =>
+          by_cases hhigh : Dv.total > 2 * G.genus - 2
+          · have : r = Dv.total - G.genus := by
+              unfold rank at h
+              simp only [he, hver, Bool.not_true, Bool.false_eq_true, if_false, hr, if_true, hhigh] at h
+              injection h with h; injection h with h; exact h.symm
+            rw [this, htot]
+            exact rank_high_degree G hG hg.conn hg.pos Dv.deg (by rw [← htot]; omega)
+          · by_cases hband : sumZ (fun v => canonicalOf G v - red.D v) < Dv.total
+            · have hpart := rank_optimized_band_partial G hg fuel Dv r out red he hver hr (by omega) hband h
+              obtain ⟨q, red', -, -, hr', hred, -⟩ := ewd_plain_ok G he
+              rw [hr] at hr'; injection hr' with hr'; subst hr'
+              obtain ⟨hle, -⟩ := reduceLoop_spec G hG.symm q _ fuel fuel _ _ _ red hred
+              obtain ⟨r0, hr0⟩ := exists_isRank G hG hg.pos red.D
+              rw [canonicalOf_eq G hG] at hpart
+              have hrr := CF.riemann_roch G hG hg.conn hg.pos red.D r0 _ hr0 hpart
+              have hdeg : deg red.D = Dv.total := by rw [deg_linEq G hG.symm hle, htot]
+              have : r0 = r := by rw [hdeg] at hrr; omega
+              rw [isRank_congr G hg.pos hle, ← this]; exact hr0
+            · apply rank_plain_exact G hg fuel Dv r
+              unfold rank at h ⊢
+              simp only [he, hver, Bool.not_true, Bool.false_eq_true, if_false, hr, if_true, hhigh, get_mat, hband] at h ⊢
+              exact h
+
+/-- consequently the two modes agree wherever both return -/
+theorem rank_modes_agree (G : Graph n) (hg : Good G) (fuel fuel' : Nat) (Dv : Divisor n) (r r' : Int)
+    (htot : Dv.total = deg Dv.deg)
+    (h : rank G fuel Dv false = some (.ok r)) (h' : rank G fuel' Dv true = some (.ok r')) : r = r' :=
+  isRank_functional G hg.pos Dv.deg r r' (rank_plain_exact G hg fuel Dv r h) (rank_optimized_exact G hg fuel' Dv r' htot h')
+
+/-- and the computed values satisfy Riemann–Roch -/
+theorem computed_riemann_roch (G : Graph n) (hg : Good G) (fuel fuel' : Nat) (opt opt' : Bool) (Dv KD : Divisor n) (r r' : Int)
+    (htot : Dv.total = deg Dv.deg) (htot' : KD.total = deg KD.deg)
+    (hK : ∀ v, KD.deg v = canonicalOf G v - Dv.deg v)
+    (h : rank G fuel Dv opt = some (.ok r)) (h' : rank G fuel' KD opt' = some (.ok r')) :
+    r - r' = Dv.total + 1 - G.genus := by
+  have e1 : IsRank G Dv.deg r := by
+    cases opt
+    · exact rank_plain_exact G hg fuel Dv r h
+    · exact rank_optimized_exact G hg fuel Dv r htot h
+  have e2 : IsRank G KD.deg r' := by
+    cases opt'
+    · exact rank_plain_exact G hg fuel' KD r' h'
+    · exact rank_optimized_exact G hg fuel' KD r' htot' h'
+  have : KD.deg = fun v => canonical G v - Dv.deg v := by
+    funext v; rw [hK v, canonicalOf_eq G hg.wf]
+  rw [this] at e2
+  rw [htot]
+  exact CF.riemann_roch G hg.wf hg.conn hg.pos Dv.deg r r' e1 e2
 
 end CF.C03
